@@ -20,7 +20,7 @@ pub struct P {
     pub pre: Vec<Key>,
     /// optional edit (input, value) after `pre` (so the concurrent phase
     /// repairs instead of computing fresh)
-    pub pre_edit: Option<(u8, Val)>,
+    pub pre_edit: Vec<(u8, Val)>,
     /// one entry per concurrent task: the keys it queries with its own
     /// tracked engine
     pub tasks: Vec<Vec<Key>>,
@@ -82,6 +82,14 @@ pub fn program(name: &str) -> Program {
                 n(N, Id(C(4))),
             ],
         },
+        // Sum over an unordered group of two independent members
+        "unord" => Program {
+            nodes: vec![
+                n(N, Id(In(0))),
+                n(N, Id(In(1))),
+                n(N, UnordAdd(vec![C(0), C(1)])),
+            ],
+        },
         "chain" => Program {
             nodes: vec![
                 n(N, Id(In(0))),
@@ -128,11 +136,13 @@ pub fn scenario(p: P) -> Arc<dyn Fn() + Send + Sync> {
                     }
                 }
             }
-            if let Some((i, v)) = p.pre_edit {
+            if !p.pre_edit.is_empty() {
                 let mut s = eng.input_session().await;
-                s.set_input(QIn(i), v).await;
+                for (i, v) in &p.pre_edit {
+                    s.set_input(QIn(*i), *v).await;
+                    r.set_input(*i, *v);
+                }
                 s.commit().await;
-                r.set_input(i, v);
             }
             sh.take_events();
             sh.take_overlaps();
@@ -180,9 +190,7 @@ pub fn scenario(p: P) -> Arc<dyn Fn() + Send + Sync> {
             let mut counts = std::collections::BTreeMap::new();
             for e in &ev {
                 match e {
-                    Event::Enter { key, .. } => {
-                        *counts.entry(*key).or_insert(0usize) += 1;
-                    }
+                    Event::Enter { .. } => {}
                     Event::Read { dep, val, .. } => {
                         let want = r.eval(&prog, rig::key_of_dep(*dep));
                         if want != Some(*val) {
@@ -192,13 +200,19 @@ pub fn scenario(p: P) -> Arc<dyn Fn() + Send + Sync> {
                             ));
                         }
                     }
+                    // an activation the engine itself cut short (aborted
+                    // chunk of an unordered group) may be recomputed; only
+                    // completed activations count
+                    Event::Exit { key, val: Some(_), .. } => {
+                        *counts.entry(*key).or_insert(0usize) += 1;
+                    }
                     Event::Exit { .. } => {}
                 }
             }
             for (k, c) in &counts {
                 if *c > 1 {
                     xplore::report_violation(format!(
-                        "{k:?} executed {c} times in one epoch"
+                        "{k:?} ran to completion {c} times in one epoch"
                     ));
                 }
             }
@@ -244,10 +258,10 @@ fn keys(v: &[u8]) -> Vec<Key> { v.iter().map(|j| Key::C(*j)).collect() }
 pub fn params(thorough: bool) -> Vec<(P, usize)> {
     let mut v = Vec::new();
     let d = |q: usize, t: usize| if thorough { t } else { q };
-    let base = |name, pre: Vec<Key>, pre_edit, tasks: Vec<Vec<Key>>| P {
+    let base = |name, pre: Vec<Key>, pre_edit: Option<(u8, Val)>, tasks: Vec<Vec<Key>>| P {
         name,
         pre,
-        pre_edit,
+        pre_edit: pre_edit.into_iter().collect(),
         tasks,
         post_edit: (0, 2),
         ymask: ystore::Y_SET,
@@ -345,6 +359,15 @@ pub fn params(thorough: bool) -> Vec<(P, usize)> {
         ),
         d(2, 3),
     ));
+    {
+        // a member of an unordered group is requested directly while the
+        // group's owner is being repaired; both members changed
+        let mut p = base("unord", keys(&[2]), None, vec![keys(&[1]), keys(&[2])]);
+        p.pre_edit = vec![(0, 1), (1, 1)];
+        p.post_edit = (1, 2);
+        p.yield_in_exec = true;
+        v.push((p, d(3, 4)));
+    }
     if thorough {
         let mut p = base(
             "diamond",
@@ -407,21 +430,21 @@ pub fn check() -> i32 {
     let threads = crate::report::threads();
     let mut scen = Vec::new();
     let all = params(thorough);
+    let _ = threads;
     for (idx, (p, d)) in all.iter().enumerate() {
-        let mut cfg = xplore::Cfg::new(*d);
-        cfg.max_failures = 30;
-        if !thorough {
-            cfg = cfg.with_deadline(std::time::Duration::from_secs(40));
-        }
-        let o = xplore::explore_parallel(&cfg, threads, scenario(p.clone()));
-        rep.evaluations += o.stats.executions;
-        rep.distinct_nontrivial += o.stats.sigs.len() as u64;
+        let Some(o) = crate::report::explore_isolated(
+            &mut rep, "c02", idx, p.name, thorough,
+        ) else {
+            continue;
+        };
+        rep.evaluations += o.executions;
+        rep.distinct_nontrivial += o.sigs;
         scen.push(json!({"scenario": p_json(p), "bound": d,
-            "schedules": o.stats.executions, "steps": o.stats.steps,
-            "max_depth": o.stats.max_depth,
-            "distinct_outcomes": o.stats.outcomes.len(),
-            "failures": o.failures.len(), "cap": o.stats.cap_hit}));
-        if let Some(c) = &o.stats.cap_hit {
+            "schedules": o.executions, "steps": o.steps,
+            "max_depth": o.max_depth,
+            "distinct_outcomes": o.outcomes,
+            "failures": o.failures.len(), "cap": o.cap_hit}));
+        if let Some(c) = &o.cap_hit {
             rep.cap(format!("{}: {c}", p.name));
         }
         if let Some(m) = o.machinery_error {
@@ -439,10 +462,19 @@ pub fn check() -> i32 {
             });
         }
         rep.sample(json!({"scenario": p_json(p), "bound": d,
-                          "schedules": o.stats.executions}));
+                          "schedules": o.executions}));
     }
     rep.extra.insert("scenarios".into(), json!(scen));
     rep.finish()
+}
+
+pub fn child(idx: usize) {
+    let thorough = crate::report::tier() == "thorough";
+    let (p, d) = params(thorough)[idx].clone();
+    let mut cfg = xplore::Cfg::new(d);
+    cfg.max_failures = 30;
+    let o = xplore::explore_parallel(&cfg, crate::report::threads(), scenario(p));
+    crate::report::emit_child_result(&o.to_json());
 }
 
 pub fn replay(v: &Value) -> i32 {
